@@ -89,16 +89,23 @@ theorem writeHeaders_ok (hs : List (ExtHdr × Nat)) (o : OutCursor) (hi : o.Inv)
     simp only at w1 this hsz ⊢
     rw [writeHeaders, w1, Out.bind_ok, this]
     simp only [flatHeaders, List.flatMap_cons, List.append_assoc, List.drop_drop, OutCursor.mk.injEq, Out.ok.injEq, true_and]
-    constructor
-    · congr 1
-    · omega
+    first
+      | omega
+      | (constructor
+         · congr 1
+         · omega)
 
 /-- the next-header octets paired with the headers cover all of them -/
 theorem wireChain_length (p : Ipv6) (last : Nat) : (wireChain p last).2.length = p.headers.length := by
   unfold wireChain
   cases hm : p.headers.map (·.option) with
-  | nil => simp only [List.length_nil]; have := congrArg List.length hm; simp at this; omega
-  | cons t ts => have := congrArg List.length hm; simp at this ⊢; omega
+  | nil =>
+    have : p.headers = [] := by simpa using hm
+    simp [this]
+  | cons t ts =>
+    have := congrArg List.length hm
+    simp only [List.length_map, List.length_cons] at this
+    simp only [List.length_append, List.length_cons, List.length_nil]; omega
 
 theorem zip_map_fst {α β} (a : List α) (b : List β) (h : b.length = a.length) : (a.zip b).map (·.1) = a := by
   induction a generalizing b with
@@ -110,7 +117,7 @@ theorem zip_map_fst {α β} (a : List α) (b : List β) (h : b.length = a.length
 
 /-- the object whose fixed header `write_serialization` stores -/
 def Ipv6.written (cx : Ctx) (p : Ipv6) (total : Nat) : Ipv6 :=
-  { p with nextHeader := (wireChain p (lastNext cx p)).1, payloadLength := (total + 4294967296 - 40) % 4294967296 % 65536 }
+  { p with nextHeader := (wireChain p (lastNext cx p)).1, payloadLength := sub32 total 40 % 65536 }
 
 /-- the extension headers with the next-header octets they carry on the wire -/
 def Ipv6.wireHeaders (cx : Ctx) (p : Ipv6) : List (ExtHdr × Nat) := p.headers.zip (wireChain p (lastNext cx p)).2
@@ -122,11 +129,10 @@ theorem lastNext_lt (cx : Ctx) (p : Ipv6) (h : p.Inv) : lastNext cx p < 256 := b
     split
     · exact ipProtoOfPduType_lt _
     · exact h.finalNext
-  · decide
+  · simp only [NO_NEXT_HEADER]; omega
 
-theorem written_inv (cx : Ctx) (p : Ipv6) (h : p.Inv) (total : Nat) : (Ipv6.written cx p total).Inv := by
-  refine ⟨h.version, h.trafficClass, h.flowLabel, Nat.mod_lt _ (by decide), ?_, h.hopLimit, h.src, h.dst, h.finalNext, h.headers⟩
-  simp only [Ipv6.written, wireChain]
+theorem written_nextHeader_lt (cx : Ctx) (p : Ipv6) (h : p.Inv) : (wireChain p (lastNext cx p)).1 < 256 := by
+  simp only [wireChain]
   cases hm : p.headers.map (·.option) with
   | nil => exact lastNext_lt cx p h
   | cons t ts =>
@@ -134,6 +140,20 @@ theorem written_inv (cx : Ctx) (p : Ipv6) (h : p.Inv) (total : Nat) : (Ipv6.writ
     have : t ∈ p.headers.map (·.option) := by rw [hm]; exact List.mem_cons_self
     rcases List.mem_map.mp this with ⟨x, hx, rfl⟩
     exact (h.headers x hx).option
+
+theorem written_inv (cx : Ctx) (p : Ipv6) (h : p.Inv) (total : Nat) : (Ipv6.written cx p total).Inv := by
+  constructor
+  · exact h.version
+  · exact h.trafficClass
+  · exact h.flowLabel
+  · show sub32 total 40 % 65536 < 65536
+    omega
+  · exact written_nextHeader_lt cx p h
+  · exact h.hopLimit
+  · exact h.src
+  · exact h.dst
+  · exact h.finalNext
+  · exact h.headers
 
 /-- closed form of `IPv6::write_serialization` -/
 theorem ipv6_write_eq (cx : Ctx) (p : Ipv6) (h : p.Inv) (region : Bytes) (hr : p.hdr ≤ region.length) :
